@@ -783,6 +783,18 @@ V("c07-nomemo-pickler-memo-left-on", "C07", "R07.1", "dask_array/io/_from_map.py
   "    pickler = pickle.Pickler(buf, protocol=5)\n    pickler.fast = True\n", "    pickler = pickle.Pickler(buf, protocol=5)\n", expect="Rechunk._name")
 V("c07-twin-nomemo-pickler-renamed", "C07", "-", "dask_array/io/_from_map.py",
   "    buf = io.BytesIO()\n    pickler = pickle.Pickler(buf, protocol=5)\n    pickler.fast = True\n    pickler.dump(obj)\n    out = buf.getvalue()\n", "    sink = io.BytesIO()\n    p = pickle.Pickler(sink, protocol=5)\n    p.fast = True\n    p.dump(obj)\n    out = sink.getvalue()\n", twin=True)
+V("c07-blockwise-token-forgets-unify-settings", "C07", "R07.6", "dask_array/_blockwise.py",
+  "                self.operand(\"token\") if \"token\" in self._parameters else None,\n                *self._unify_token,\n", "                self.operand(\"token\") if \"token\" in self._parameters else None,\n", expect="Blockwise._lower")
+V("c07-elemwise-token-forgets-unify-settings", "C07", "R07.6", "dask_array/_blockwise.py",
+  "                self._determ_token = _tokenize_deterministic(type(self), *self._unify_token, *self.operands)", "                self._determ_token = _tokenize_deterministic(type(self), *self.operands)", expect="Elemwise._lower")
+V("c07-unify-token-reads-config-live", "C07", "R07.6", "dask_array/_blockwise.py",
+  "        settings = self._unify_config\n        if settings == {\"policy\": \"auto\", \"limit\": None}:", "        settings = {\"policy\": config.get(\"array.unify-chunks-policy\", \"auto\"), \"limit\": config.get(\"array.unify-chunks-limit\", None)}\n        if settings == {\"policy\": \"auto\", \"limit\": None}:", expect="lowering-config")
+V("c07-twin-unify-token-renamed", "C07", "-", "dask_array/_blockwise.py", None, None, twin=True, edits=[
+  ("dask_array/_blockwise.py", "    def _unify_token(self):", "    def _planner_token(self):"),
+  ("dask_array/_blockwise.py", "                *self._unify_token,\n                *args_token,", "                *self._planner_token,\n                *args_token,"),
+  ("dask_array/_blockwise.py", "_tokenize_deterministic(type(self), *self._unify_token, *self.operands)", "_tokenize_deterministic(type(self), *self._planner_token, *self.operands)"),
+  ("dask_array/_blockwise.py", "                    type(self), *self._unify_token, *(token_or_identity(o) for o in self.operands)", "                    type(self), *self._planner_token, *(token_or_identity(o) for o in self.operands)"),
+])
 V("c02-detector-uses-forward-permutation", "C02", "R02.6", "dask_array/_blockwise.py",
   "        inv = expr._inverse_axes\n        dep_mapping = tuple(parent_mapping[inv[i]] for i in range(len(inv)))", "        dep_mapping = tuple(parent_mapping[ax] for ax in expr.axes)", expect="_symbolic_mapping")
 V("c02-twin-detector-local-rename", "C02", "-", "dask_array/_blockwise.py",
